@@ -160,6 +160,11 @@ def run(F, rep, tier):
                 bodies.append(hb)
                 sth += [c.target for c in hb.calls if c.callee.get('rlocal') or c.callee.get('local')]
         bad = [(c, last, g) for bx in bodies for (c, last, g) in payload_copies(bx) if (fn, last) not in exceptions and (bx.path, last) not in exceptions]
+        # a second handle to the payload (Rc::clone) inside an in-place function defeats make_mut just as well
+        for bx in bodies:
+            for c in bx.calls:
+                if c.target.endswith('Clone>::clone') and re.search(r'std::rc::Rc<(std::vec::Vec|std::string::String|std::collections::HashMap)', c.target + str(c.callee.get('g'))):
+                    bad.append((c, 'Rc::clone', str(c.callee.get('g'))))
         for (c, last, g) in bad:
             rep.viol('R2.3', '%s|payload-copy|%s' % (label, last), '%s copies or reallocates a whole payload (%s on %s): k mutations of an unshared collection of n elements cost O(n*k)' % (label, last, g[:60]), c.loc())
         if mm and not bad:
